@@ -186,4 +186,15 @@ CHECKS = {
         "note": "the order of change events of concurrent writers may differ from the order of their saves (events are sent after the lock is released): not part of the statement",
         "technique": "Lean 4 proof (typing invariant, refinement of the split machine to the committed-write log) + regenerated tie lemmas + exact correspondence and linearizability-checked concurrent histories",
     },
+    "C15": {
+        "text": "Lean 4 invariant over all operation sequences of the directory machine (maps keyed by id as in the code): ids "
+                "are handed out strictly increasing from a counter that never decreases and every id in use is at most the "
+                "counter (never reused); a service is staging or ready, not both; a name is held by at most one registered "
+                "service; list and lookup show exactly the ready services (staging ones invisible); an accepted update "
+                "keeps name and id and touches nothing else; the events about a service are nothing, its serviceAdded, or "
+                "its serviceAdded then its serviceRemoved, with its own name; every method is one critical section "
+                "(regenerated), so the order of critical sections linearizes any concurrent history",
+        "note": "linearizability of concurrent histories rests on the regenerated lock structure (atomic steps) and is exercised by the brute-force acceptor on recorded histories",
+        "technique": "Lean 4 proof (registry invariant by induction over operation sequences) + regenerated tie lemmas (lock structure, check order) + exact sequential correspondence and linearizability-checked concurrent histories",
+    },
 }
